@@ -48,7 +48,7 @@ class C08(Prop):
             pick = tabs if (n == 1 or thorough) else rng.sample(tabs, 2500)
             regions = [[]] + enum.subsets(n)
             for i, (m, r) in enumerate(pick):
-                for form in ("list", "tuple", "mask"):
+                for form in ("list", "tuple", "mask") + ((("unsorted", "ndarray", "repeat")[i % 3],) if n == 2 else ()):
                     s = {"k": "entropy", "rows": ins_to_state(m), "r": r, "regions": regions, "form": form}
                     if n == 2 and i % 10:
                         s["pkg"] = "py"
@@ -60,6 +60,9 @@ class C08(Prop):
                 if i % 3:
                     s["pkg"] = "py"
                 yield s
+                # the same regions named in other ways: indices in descending / shuffled order, as a numpy integer array,
+                # as a range, and with qubits named more than once (padded to length N: still the same set of qubits)
+                yield dict(s, form=("unsorted", "ndarray", "repeat", "range")[(i + r) % 4], pkg="py")
 
     def execute(self, scn, be):
         import numpy
@@ -68,9 +71,33 @@ class C08(Prop):
         try:
             S = be.state(scn["rows"], scn["r"])
             vals = []
+            regs = []
             for reg in scn["regions"]:
                 z = [q - 1 for q in reg]
-                if scn["form"] == "list":
+                regs.append(reg)
+                if scn["form"] == "unsorted":
+                    arg = list(reversed(z)) if len(z) < 3 else z[1:] + z[:1]
+                elif scn["form"] == "ndarray":
+                    arg = numpy.array(z, dtype=(numpy.int64, numpy.int32, numpy.intp)[len(z) % 3])
+                elif scn["form"] == "range":
+                    if not z or z != list(range(z[0], z[-1] + 1)):
+                        regs.pop()
+                        continue
+                    arg = range(z[0], z[-1] + 1)
+                elif scn["form"] == "repeat":
+                    if not z:
+                        regs.pop()
+                        continue
+                    arg = (z * n)[:max(n, len(z) + 1)]
+                    arg = arg[1:] + arg[:1]
+                    try:
+                        v = _as_int(S.entropy(arg))
+                    except Exception:
+                        regs.pop()          # refusing a list that names a qubit twice is not a violation
+                        continue
+                    vals.append(-99 if v is None else v)
+                    continue
+                elif scn["form"] == "list":
                     arg = z
                 elif scn["form"] == "tuple":
                     arg = tuple(z)
@@ -81,6 +108,7 @@ class C08(Prop):
                 v = _as_int(S.entropy(arg))
                 vals.append(-99 if v is None else v)
             rec["vals"] = vals
+            rec["regions"] = regs
             rec["pre1"] = be.p_state(S)
         except Exception as e:
             rec["exc"] = _exc(e)
